@@ -5,6 +5,10 @@ VERIF = os.path.dirname(os.path.dirname(os.path.abspath(__file__)))
 ALL = ["C%02d" % i for i in range(1, 21)]
 
 CLAIMED = {
+ "C08": dict(
+    text="Model-set equality for the shape formula: for generated full grids (uniform or not, origin 0 or not, integer or fractional extent, permuted block order) and k = 1..3, ALL models of the CNF built as solve() builds it are enumerated (PySAT + blocking clauses), projected on the per-box cell variables, and compared as a set with an independent enumeration of k-tuples (trunk, branches) - spurious and missing shapes both count; bounded-exhaustive over every grid shape up to 3x3 (4x4 thorough) on five coordinate systems; and rect.solve() itself is run in minimum-error mode for bounds from below the minimum to above the maximum attainable cost and its verdict, rectangles and reported cost are checked against the enumeration.",
+    note="Trusted: PySAT, the 25-line shape enumerator. Grids are complete; coordinates multiples of 0.5, occupancies multiples of 1/4 (exact integer costs). GreedyManager (DLL) stubbed - not used by the checked functions.",
+    technique="property-based testing + bounded exhaustive enumeration with a model-set-equality oracle", ref="4/C08"),
  "C15": dict(
     text="Bounded-exhaustive: ALL 0/1 grids of at most 16 cells (quick; 576 650 grids) / 20 cells (thorough; 9.7 million) in every rows x cols shape are decided by a brute-force existence oracle over all all-ones trunks and every offered decomposition is validated as a partition into trunk + abutting branches; beyond the bound, generated grids up to 8x8 (orthogons, near-orthogons, rings, staircases, two components, explicit row/column sizes) and generated orthogon polygons on non-uniform fractional lattices (both orientations, every start vertex, redundant vertices, Points / numpy rows) through strop_decomposition and Netlist loading.",
     note="Exhaustive only inside the stated bound; sampling beyond it. Trusted: the 30-line existence oracle written from the statement; exact geometry for the polygon union.",
